@@ -138,8 +138,7 @@ type layerInfo struct {
 	limitSid bool
 }
 
-func (down *rtpDownTrack) getLayerInfo() layerInfo {
-	info := atomic.LoadUint32(&down.atomics.layerInfo)
+func unpackLayerInfo(info uint32) layerInfo {
 	return layerInfo{
 		sid:       uint8((info & 0xF)),
 		wantedSid: uint8((info >> 4) & 0xF),
@@ -151,20 +150,54 @@ func (down *rtpDownTrack) getLayerInfo() layerInfo {
 	}
 }
 
-func (down *rtpDownTrack) setLayerInfo(info layerInfo) {
+func packLayerInfo(info layerInfo) uint32 {
 	var l uint32
 	if info.limitSid {
 		l = 1 << 12
 	}
-	atomic.StoreUint32(&down.atomics.layerInfo,
-		uint32(info.sid&0xF)|
-			uint32(info.wantedSid&0xF)<<4|
-			uint32(info.maxSid&0xF)<<8|
-			l|
-			uint32(info.tid&0xF)<<16|
-			uint32(info.wantedTid&0xF)<<20|
-			uint32(info.maxTid&0xF)<<24,
-	)
+	return uint32(info.sid&0xF) |
+		uint32(info.wantedSid&0xF)<<4 |
+		uint32(info.maxSid&0xF)<<8 |
+		l |
+		uint32(info.tid&0xF)<<16 |
+		uint32(info.wantedTid&0xF)<<20 |
+		uint32(info.maxTid&0xF)<<24
+}
+
+func (down *rtpDownTrack) getLayerInfo() layerInfo {
+	return unpackLayerInfo(atomic.LoadUint32(&down.atomics.layerInfo))
+}
+
+func (down *rtpDownTrack) setLayerInfo(info layerInfo) {
+	atomic.StoreUint32(&down.atomics.layerInfo, packLayerInfo(info))
+}
+
+// updateLayerInfo atomically replaces the layer info with f applied to it,
+// and returns the new value.  The layer info is updated by the writer,
+// by the RTCP listener and when the client's request changes, so a plain
+// load followed by a store could overwrite a concurrent update.
+// f may be called more than once.
+func (down *rtpDownTrack) updateLayerInfo(f func(layerInfo) layerInfo) layerInfo {
+	for {
+		old := atomic.LoadUint32(&down.atomics.layerInfo)
+		info := packLayerInfo(f(unpackLayerInfo(old)))
+		if info == old || atomic.CompareAndSwapUint32(
+			&down.atomics.layerInfo, old, info,
+		) {
+			return unpackLayerInfo(info)
+		}
+	}
+}
+
+// setLimitSid records whether the client asked to stick to sid 0.
+func (down *rtpDownTrack) setLimitSid(limitSid bool) {
+	down.updateLayerInfo(func(layer layerInfo) layerInfo {
+		layer.limitSid = limitSid
+		if limitSid {
+			layer.wantedSid = 0
+		}
+		return layer
+	})
 }
 
 const (
@@ -233,47 +266,46 @@ func (down *rtpDownTrack) Write(buf []byte) (int, error) {
 	layer := down.getLayerInfo()
 
 	if flags.Tid > layer.maxTid || flags.Sid > layer.maxSid {
-		if flags.Tid > layer.maxTid {
-			// increase eagerly if this is the first time we
-			// see a given layer
-			if layer.tid == layer.maxTid {
-				layer.wantedTid = flags.Tid
+		down.updateLayerInfo(func(layer layerInfo) layerInfo {
+			if flags.Tid > layer.maxTid {
+				// increase eagerly if this is the first time we
+				// see a given layer
+				if layer.tid == layer.maxTid {
+					layer.wantedTid = flags.Tid
+					layer.tid = flags.Tid
+				}
+				layer.maxTid = flags.Tid
+			}
+			if flags.Sid > layer.maxSid {
+				if layer.sid == layer.maxSid && !layer.limitSid {
+					layer.wantedSid = flags.Sid
+					layer.sid = flags.Sid
+				}
+				layer.maxSid = flags.Sid
+			}
+			return layer
+		})
+		down.adjustLayer()
+	}
+
+	layer = down.updateLayerInfo(func(layer layerInfo) layerInfo {
+		if flags.Start && (layer.tid != layer.wantedTid) {
+			if flags.Keyframe {
+				layer.tid = layer.wantedTid
+			} else if layer.wantedTid < layer.tid {
+				layer.tid = layer.wantedTid
+			} else if flags.TidUpSync && flags.Tid <= layer.wantedTid {
 				layer.tid = flags.Tid
 			}
-			layer.maxTid = flags.Tid
 		}
-		if flags.Sid > layer.maxSid {
-			if layer.sid == layer.maxSid && !layer.limitSid {
-				layer.wantedSid = flags.Sid
-				layer.sid = flags.Sid
-			}
-			layer.maxSid = flags.Sid
+		if flags.Start && flags.Keyframe {
+			layer.sid = layer.wantedSid
 		}
-		down.setLayerInfo(layer)
-		down.adjustLayer()
-		layer = down.getLayerInfo()
-	}
-
-	if flags.Start && (layer.tid != layer.wantedTid) {
-		if flags.Keyframe {
-			layer.tid = layer.wantedTid
-			down.setLayerInfo(layer)
-		} else if layer.wantedTid < layer.tid {
-			layer.tid = layer.wantedTid
-			down.setLayerInfo(layer)
-		} else if flags.TidUpSync && flags.Tid <= layer.wantedTid {
-			layer.tid = flags.Tid
-			down.setLayerInfo(layer)
-		}
-	}
+		return layer
+	})
 
 	if flags.Start && (layer.sid != layer.wantedSid) {
-		if flags.Keyframe {
-			layer.sid = layer.wantedSid
-			down.setLayerInfo(layer)
-		} else {
-			down.remote.RequestKeyframe()
-		}
+		down.remote.RequestKeyframe()
 	}
 
 	if flags.Tid > layer.tid || flags.Sid > layer.sid ||
@@ -339,31 +371,30 @@ func (t *rtpDownTrack) adjustLayer() {
 	rate := uint64(r) * 8
 	if rate < max*7/8 {
 		// switch up
-		layer := t.getLayerInfo()
-		if layer.limitSid && layer.wantedSid != 0 {
-			layer.wantedSid = 0
-			t.setLayerInfo(layer)
-		} else if !layer.limitSid && layer.sid < layer.maxSid {
-			layer.wantedSid = layer.sid + 1
-			t.setLayerInfo(layer)
-		} else if layer.tid < layer.maxTid {
-			layer.wantedTid = layer.tid + 1
-			t.setLayerInfo(layer)
-		}
+		t.updateLayerInfo(func(layer layerInfo) layerInfo {
+			if layer.limitSid && layer.wantedSid != 0 {
+				layer.wantedSid = 0
+			} else if !layer.limitSid && layer.sid < layer.maxSid {
+				layer.wantedSid = layer.sid + 1
+			} else if layer.tid < layer.maxTid {
+				layer.wantedTid = layer.tid + 1
+			}
+			return layer
+		})
 	} else if rate > max*3/2 {
 		// switch down
-		layer := t.getLayerInfo()
-		if layer.tid > 0 {
-			layer.wantedTid = layer.tid - 1
-			t.setLayerInfo(layer)
-		} else if layer.sid > 0 {
-			if layer.limitSid {
-				layer.wantedSid = 0
-			} else {
-				layer.wantedSid = layer.sid - 1
+		t.updateLayerInfo(func(layer layerInfo) layerInfo {
+			if layer.tid > 0 {
+				layer.wantedTid = layer.tid - 1
+			} else if layer.sid > 0 {
+				if layer.limitSid {
+					layer.wantedSid = 0
+				} else {
+					layer.wantedSid = layer.sid - 1
+				}
 			}
-			t.setLayerInfo(layer)
-		}
+			return layer
+		})
 	}
 }
 
